@@ -52,6 +52,9 @@ def scenarios(thorough):
               ("newdir", entry, "content", "ABSENT", False, True, 0o644),
               ("readonly", entry, "content", "OLD", False, False, 0o444)]
     s.append(("changes", "cli", "changes", "OLD", False, False, 0o644))
+    # the other CLI commands that write a file: in place over the file they read
+    s.append(("normalize_in_place", "cli", "normalize_o", "OLD", False, False, 0o644))
+    s.append(("seal_in_place", "cli", "seal_o", "OLD", False, False, 0o640))
     return s
 
 
@@ -62,7 +65,7 @@ class Sandbox:
         self.root = tempfile.mkdtemp(prefix="c16.", dir=os.environ.get("VERIF_SCRATCH", "/var/tmp"))
         self.dir = os.path.join(self.root, "sub") if sub else self.root
         self.target = os.path.join(self.dir, "doc.oct.md")
-        self.old_text = OLD_LENIENT if mode == "normalize" else OLD_CANON
+        self.old_text = OLD_LENIENT if mode in ("normalize", "normalize_o") else OLD_CANON
         if old == "OLD":
             os.makedirs(self.dir, exist_ok=True)
             with open(self.target, "w", encoding="utf-8", newline="") as f:
@@ -128,8 +131,11 @@ def invoke(sc, sb):
         return ("ok" if r.get("status") == "success" else "error"), r.get("canonical_hash")
     from click.testing import CliRunner
     from octave_mcp.cli.main import cli
-    args = ["write", sb.target]
-    args += ["--changes", json.dumps({"B": "new value"})] if mode == "changes" else ["--content", NEW_INPUT]
+    if mode in ("normalize_o", "seal_o"):
+        args = [mode[:-2], sb.target, "-o", sb.target]
+    else:
+        args = ["write", sb.target]
+        args += ["--changes", json.dumps({"B": "new value"})] if mode == "changes" else ["--content", NEW_INPUT]
     if base:
         args += ["--base-hash", base]
     res = CliRunner().invoke(cli, args, catch_exceptions=True)
@@ -258,7 +264,7 @@ def run(ctx):
         recs = [{"op": "begin", "tid": tid, "scenario": scen}]
         recs += [{k: e[k] for k in ("op", "res", "h", "path", "path2", "chunk", "mode")} for e in evs]
         if r["status"] != "killed":
-            recs.append({"op": "ret", "status": r["status"], "hash_ok": (r["hash"] == sha(m["new_text"])) if r["status"] == "ok" else True})
+            recs.append({"op": "ret", "status": r["status"], "hash_ok": (r["hash"] == sha(m["new_text"])) if r["status"] == "ok" and m["sc"][2] not in ("normalize_o", "seal_o") else True})   # those commands print no hash
         recs.append({"op": "snap", "target": r["snap"][0], "ntmp": r["snap"][1], "mode": r["snap"][2]})
         for e in recs:
             i += 1
